@@ -10,6 +10,8 @@ sampled by the harness (partial, see notes/C13.md).
 import Rustic.Lemmas.Streamer
 import Rustic.Lemmas.Packer
 import Rustic.Lemmas.ArchiveDedup
+import Rustic.Lemmas.SnapshotArchive
+import Rustic.Lemmas.TreeIter
 namespace Rustic.Props.C13
 open Rustic.Tree Rustic.Parent Rustic.Archive
 
@@ -89,6 +91,24 @@ theorem pipeline_progress (p : Pipe) (hcap : capsPos p = true) (hne : allEmpty p
   cases hm : move p i false with
   | none => rw [hm] at hi; cases hi
   | some p' => exact ⟨i, p', hm, move_measure p i false p' hm⟩
+
+/-- (2') **The archiver's channel network** (not a line: `parallel_map` workers fan out to the data packer and to the
+ordered output queue, the main thread feeds the tree packer, both packers end in their file-writer actor).  For ANY
+network of bounded buffers whose hand-overs all go downstream (`Net.WF`: a DAG in node order, every buffer can hold an
+item): in EVERY state with an item anywhere — whatever the workers have expanded files into — some node can move (no
+deadlock: the most downstream non-empty node either lets its item leave or hands it to an empty buffer), the number of
+nodes is unchanged and the move strictly decreases a natural-number measure (no livelock). -/
+theorem network_progress (net : Net) (s : NSt) (hwf : net.WF s.length) (hne : ∃ i, getBuf s i ≠ []) :
+    ∃ i s', moveN net s i = some s' ∧ s'.length = s.length ∧ measureN s' < measureN s :=
+  net_progress net s hwf hne
+
+/-- (2'') … and `archiverNet` — source/`TreeIterator`/`Parent` → file-archiver workers → {data packer line, ordered
+output → `tree_archiver.add` → tree packer line} — is such a network, so the backup pipeline as a whole always has
+an enabled step until it has drained. -/
+theorem archiver_network_progress (s : NSt) (hlen : s.length = 16) (hne : ∃ i, getBuf s i ≠ []) :
+    ∃ i s', moveN archiverNet s i = some s' ∧ s'.length = 16 ∧ measureN s' < measureN s := by
+  obtain ⟨i, s', h1, h2, h3⟩ := net_progress archiverNet s (hlen ▸ archiverNet_wf) hne
+  exact ⟨i, s', h1, h2 ▸ hlen, h3⟩
 
 end Streamer
 
@@ -170,6 +190,39 @@ theorem treeId_independent_of_index {γ} (H : List Node → Id) (chunk : γ → 
     · simp only [e0, e1, Option.map_some, TA.finalize, List.filter_nil, List.head?_nil]
       rw [(backupTree_id H ht0 t0 _).1, (backupTree_id H ht1 t1 _).1, hs.1]
 
+/-- (6) **The tree id is a function of the source and the chunker only** — stated on the source: for every source forest
+walked by the real `TreeIterator` model, every index state (`hasData`, `hasTree`), every stored parent forest `load`
+(unused without parents) and every option set, the archiver's root id is `H` of the node list that `Snapshot.saveL`
+computes from the forest alone (names, types, link targets, metadata, chunk ids of the contents under `chunks`, sub-tree
+ids); the chunks it references are those of `saveL`; what it UPLOADS (`treeAdds`, `dataAdds`) is that same set minus what
+the index has.  With `stored_set_schedule_independent` (pack boundaries, delays) the snapshot's id and blob set do not
+depend on scheduling, latency, pack sizes or the index. -/
+theorem snapshot_is_function_of_source (H : List Node → Id) (hash : RoundTrip.Bytes → Id)
+    (chunks : RoundTrip.Bytes → List RoundTrip.Bytes) (load : Id → Option (List Node)) (hasData hasTree : Id → Bool)
+    (o : Opts) (src : List Snapshot.STree) (hw : Snapshot.WalkableL src) :
+    ∃ a, archive H (fun d => (chunks d).map hash) List.length load hasData hasTree o []
+        (treeItems (Snapshot.entriesL [] src)) = some a ∧
+      a.root = H (Snapshot.saveL H hash chunks Snapshot.noTree src).nodes ∧
+      (∀ i, i ∈ a.dataAdds ↔ i ∈ (Snapshot.saveL H hash chunks Snapshot.noTree src).chunks.map hash ∧ hasData i = false) ∧
+      (∀ t ∈ a.treeAdds, hasTree t.1 = false) := by
+  rw [Snapshot.tree_iterator_items src hw]
+  obtain ⟨a, ha, hroot, htrees, hdata⟩ := Snapshot.archive_eq_save H hash chunks load hasData hasTree o src
+  have hind := Snapshot.saveL_indep H hash chunks hasTree Snapshot.noTree src
+  refine ⟨a, ha, by rw [hroot, hind.1], ?_, ?_⟩
+  · intro i
+    rw [hdata, hind.2, List.mem_filter]
+    simp
+  · intro t ht
+    rw [htrees] at ht
+    rcases List.mem_append.mp ht with ht | ht
+    · exact Snapshot.saveL_trees_new H hash chunks hasTree src t ht
+    · split at ht
+      · cases ht
+      · rename_i hh
+        simp only [List.mem_singleton] at ht
+        subst ht
+        simpa using hh
+
 /-! ### Non-vacuity -/
 
 open Rustic.Streamer in
@@ -186,6 +239,16 @@ open Rustic.Streamer in
 example : ∃ i p', move [([1], 1), ([], 1), ([2], 1), ([], 1)] i false = some p' ∧
     measure p' < measure [([1], 1), ([], 1), ([2], 1), ([], 1)] :=
   pipeline_progress _ (by decide) (by decide)
+
+open Rustic.Streamer in
+/-- the archiver network with the workers full (two chunks, two processed items), a tree blob in the main thread's hands,
+the data writer queue occupied: the data file writer (node 9, the most downstream non-empty node) is the move the proof picks … -/
+example : moveN archiverNet [[], [1, 2, 5, 4], [6], [7], [], [], [], [], [], [11], [], [], [], [], [], []] 9 =
+    some [[], [1, 2, 5, 4], [6], [7], [], [], [], [], [], [], [], [], [], [], [], []] := by decide
+
+open Rustic.Streamer in
+/-- … and a worker blocked on the full data-packer hand-over is NOT enabled (the model has blocking sends) -/
+example : moveN archiverNet [[], [1], [], [], [9], [], [], [], [], [], [], [], [], [], [], []] 1 = none := by decide
 
 /-- writing is delayed behind three flushes: everything is indexed at finalize -/
 example : (finalizeAll (runEvs { typed := true }
